@@ -394,7 +394,7 @@ def conditions(tier, seed):
         for lo in range(0, n, 3):
           for torn in ((False, True) if (tier != 'quick' or lo == 0) else (False,)):
             out.append({'name': 'isolated_g[%s,pool=%s,texts=%d-%d%s]' % (eng, pool, lo, min(n, lo + 3) - 1, ',torn' if torn else ''),
-                        'func': 'isolated_g', 'timeout': 300,
+                        'func': 'isolated_g', 'timeout': 300 if tier == 'quick' else 900,
                         'param': dict({'engine': eng, 'pool': pool, 'ilo': lo, 'ihi': lo + 3, 'torn': torn},
                                       **({'kmax': 4, 'hmax': 6} if tier == 'quick' else {})),
                         'bounds': 'at fetch k in [0,8] every attribute of the engine/lexer/parser/rule objects/yaql modules '
